@@ -1252,7 +1252,13 @@ def apply_method_contract(eng, fi, c, args, kwargs, node):
             raise PyRaise(outcomes[idx][0].split('[')[0], msg='raised by %s' % nm)
         res = eng.fresh(c.ret_ty, 'r_' + nm.split('.')[-1]) if c.ret_ty != NONE else VNONE
         fr_c.ghost['result'] = res
-        for name, e in c.ensures.items():
+        # what a caller may assume: the clauses proved on the callee's own unit, plus `assumed_ensures` (facts about ghost
+        # state such as promise ranks that are justified in the contract's notes, listed among the assumptions)
+        ens = dict(c.ensures)
+        ens.update(c.extra.get('assumed_ensures', {}))
+        for name, e in ens.items():
+            if any(k_ in e for k_ in ('n_events(', 'event_arg(', 'event_ref(', 'n_calls(')):
+                continue          # clauses about the callee's own activation trace say nothing in the caller's trace
             eng.assume(eng.pure_bool(e, fr_c))
     finally:
         eng.st.ghost['old_heap_stack'] = eng.st.ghost['old_heap_stack'][:-1]
